@@ -40,7 +40,7 @@ import (
 //   delete <t> <w> <ident> <tok>                      DELETE /__session__
 //   go <t>                                            release thread t from its `b`
 //   age <ticks> | reap <w> | reapat <w> <sid> <dns> | shutdown <w> | drain <w> <0|1> | snap
-//   aad <ident> | plain <srvhex> <sidhex> | parse <plainhex>        pure helpers vs the model
+//   aad <ident> | plain x<srvhex> x<sidhex> | parse x<plainhex>        pure helpers vs the model
 //   stress <seed> <n> <k> | realreaper <seed>         concurrent searches on a private server
 //
 // ident: anon | a:<domainhex>:<principalhex> | u:<domainhex>:<principalhex>
@@ -183,6 +183,7 @@ type c29World struct {
 	states   map[string]*c29State
 	oracles  [][2]string
 	stress   bool
+	stuck    bool
 }
 
 var c29Cur atomic.Pointer[c29World]
@@ -568,7 +569,16 @@ func (t *c29Thread) handler(w *c29World, ctx *vgirpc.CallContext) {
 		// isolation, stated directly: the session must have been opened on this worker by this caller
 		// class, the token must have been sealed for this worker, and the session must not have been
 		// closed before this request started
-		if !c29SameCaller(st.opener, t.ident) {
+		crafted := strings.HasPrefix(t.tokSpec, "S/") || strings.HasPrefix(t.tokSpec, "P/")
+		sameCaller := c29SameCaller(st.opener, t.ident)
+		if crafted {
+			// a token sealed by someone holding the server's key for the caller's own AAD: only the
+			// registry's principal-key partition stands between callers
+			a, _ := c29ParseIdent(st.opener)
+			b, _ := c29ParseIdent(t.ident)
+			sameCaller = vgirpc.VerifC29PrincipalKey(a) == vgirpc.VerifC29PrincipalKey(b)
+		}
+		if !sameCaller {
 			w.oracle("cross-caller-resolve", fmt.Sprintf("thread %d (%s) resolved session %s opened by %s", t.id, t.ident, st.key, st.opener))
 		}
 		if t.tokSrvOK && t.tokSrv != w.workers[t.worker].serverID {
@@ -660,12 +670,13 @@ func (t *c29Thread) handler(w *c29World, ctx *vgirpc.CallContext) {
 			default:
 				o = "o:err"
 			}
-			if consumed {
+			if err == nil && !consumed {
+				o = "o:ok-unforced"
+			}
+			if o == "o:ok" || o == "o:sealfail" {
 				w.mu.Lock()
 				w.states[st.key] = st
 				w.mu.Unlock()
-			} else if err == nil {
-				o = "o:ok-unforced"
 			}
 			t.mu.Lock()
 			t.obs = append(t.obs, o)
@@ -675,10 +686,16 @@ func (t *c29Thread) handler(w *c29World, ctx *vgirpc.CallContext) {
 }
 
 // goroutine wait state of thread t ("" when not found)
+var (
+	c29StackMu  sync.Mutex
+	c29StackBuf = make([]byte, 1<<20)
+)
+
 func c29GoState(gid string) string {
-	buf := make([]byte, 1<<20)
-	n := runtime.Stack(buf, true)
-	s := string(buf[:n])
+	c29StackMu.Lock()
+	defer c29StackMu.Unlock()
+	n := runtime.Stack(c29StackBuf, true)
+	s := string(c29StackBuf[:n])
 	key := "goroutine " + gid + " ["
 	i := strings.Index(s, key)
 	if i < 0 {
@@ -696,6 +713,9 @@ func c29GoState(gid string) string {
 func (t *c29Thread) settle(w *c29World) {
 	deadline := time.Now().Add(20 * time.Second)
 	parked := 0
+	if t.atLock {
+		parked = 4 // already seen parked on the lock: one confirming sample is enough
+	}
 	for {
 		st := t.getStatus()
 		if st != "running" {
@@ -722,7 +742,7 @@ func (t *c29Thread) settle(w *c29World) {
 }
 
 func (w *c29World) settleAll() {
-	for round := 0; round < 3; round++ {
+	for round := 0; round < 2; round++ {
 		for _, t := range w.threads {
 			if t.getStatus() == "running" {
 				t.settle(w)
@@ -781,6 +801,17 @@ func (w *c29World) report(head string) string {
 		parts = append(parts, w.status(t))
 		if t.getStatus() == "done" {
 			t.reported = true
+			if t.isDelete && t.code == 204 && t.target != "" {
+				// DELETE is documented to serialize with an in-flight call on the same session
+				for _, o := range w.threads {
+					o.mu.Lock()
+					busy := o != t && !o.isDelete && o.worker == t.worker && o.status == "blocked" && o.resumed == t.target
+					o.mu.Unlock()
+					if busy {
+						w.oracle("delete-overtook-running-call", fmt.Sprintf("DELETE (thread %d) closed session %s while thread %d was still inside its handler on it", t.id, t.target, o.id))
+					}
+				}
+			}
 		}
 	}
 	return strings.Join(parts, " ")
@@ -1072,9 +1103,9 @@ func c29Line(c *Case, w *c29World, l string, f []string) string {
 		c.Stat("aad")
 		return hex.EncodeToString(vgirpc.VerifC29Aad(a)) + " " + hex.EncodeToString([]byte(vgirpc.VerifC29PrincipalKey(a)))
 	case f[0] == "plain" && len(f) == 3:
-		srv, e1 := hex.DecodeString(f[1])
-		sid, e2 := hex.DecodeString(f[2])
-		if e1 != nil || e2 != nil {
+		srv, e1 := UnX(f[1])
+		sid, e2 := UnX(f[2])
+		if !e1 || !e2 {
 			return "bad-op"
 		}
 		key := bytes.Repeat([]byte{9}, 32)
@@ -1098,8 +1129,8 @@ func c29Line(c *Case, w *c29World, l string, f []string) string {
 		}
 		return hex.EncodeToString(c29Mask(p)) + " " + res
 	case f[0] == "parse" && len(f) == 2:
-		p, e1 := hex.DecodeString(f[1])
-		if e1 != nil {
+		p, e1 := UnX(f[1])
+		if !e1 {
 			return "bad-op"
 		}
 		key := bytes.Repeat([]byte{9}, 32)
